@@ -176,6 +176,9 @@ class Run:
         nd = 0
         for i, l in enumerate(lines):
             r = real[i]
+            if r == "SKIP":
+                self.count("skipped_after_runaway_ops")
+                continue
             self.evaluations += 1
             if not trivial(l, r):
                 self.nontrivial.add(hashlib.md5((l + "\0" + r).encode()).digest()[:8])
